@@ -393,12 +393,22 @@ def parse_gro(path):
 
 # ------------------------------------------------------------------------------------------ the real run
 
-def real_run(case, timeout):
+def real_run(case, timeout, workdir=None):
+    """one gen_coords run.  `workdir`: a directory that is REUSED by consecutive runs of this process -- the
+    files carry the same names (s.top, in.gro, grid.dat, out.gro, ff/...) with new contents every time, as in a
+    step-wise build script; it is emptied, not removed, after the run"""
     import numpy as np
+    import shutil
     from pathlib import Path
     from polyply.src import gen_coords as gc
     opts = case["opts"]
-    tmp = tempfile.mkdtemp(prefix="c03_")
+    if workdir is None:
+        tmp = tempfile.mkdtemp(prefix="c03_")
+    else:
+        tmp = workdir
+        for name in os.listdir(tmp):
+            full = os.path.join(tmp, name)
+            shutil.rmtree(full, ignore_errors=True) if os.path.isdir(full) else os.remove(full)
     top, gro = os.path.join(tmp, "s.top"), os.path.join(tmp, "out.gro")
     write_top(top, case)
     kwargs = dict(toppath=Path(top), outpath=Path(gro), name="verif")
@@ -462,8 +472,8 @@ def real_run(case, timeout):
         signal.signal(signal.SIGALRM, old)
         random_walk.RandomWalk.update_positions = orig_update
         os.chdir(cwd)
-        import shutil
-        shutil.rmtree(tmp, ignore_errors=True)
+        if workdir is None:
+            shutil.rmtree(tmp, ignore_errors=True)
     return res
 
 
@@ -501,7 +511,7 @@ def close(a, b, rel):
 
 def judge(ctx, case, res, answers, box_ans):
     listing, spec, mass = answers
-    replay = dict(case)
+    replay = dict(case, history=res.get("history") or [])
     status = res["status"]
     natoms = sum(len(type_atoms(t)) for t in expanded(case))
     key = json.dumps(case, sort_keys=True) if natoms > 1 else None
@@ -671,11 +681,31 @@ def run_cases(ctx, cases, timeout=None):
     timeout = timeout or ctx.budget(8.0, 30.0)
     deadline = ctx.t0 + ctx.budget(60, 780)
     done = []
-    for case in cases:
-        if time.time() > deadline:
-            ctx.tally(skipped_for_time=True)
-            continue
-        done.append((case, real_run(case, timeout)))
+    # process history: all runs of this call happen in ONE directory under the same file names with changing
+    # contents (a later run must not see anything of an earlier one); a failing input is reported together with
+    # the runs that may have left something behind: the last run that read an input structure and the run
+    # immediately before
+    import shutil
+    workdir = tempfile.mkdtemp(prefix="c03_hist_")
+    last_input, last = None, None
+    try:
+        for case in cases:
+            if time.time() > deadline:
+                ctx.tally(skipped_for_time=True)
+                continue
+            case = {k: v for k, v in case.items() if k != "history"}
+            res = real_run(case, timeout, workdir=workdir)
+            history = []
+            for prev in (last_input, last):
+                if prev is not None and prev not in history and not prev["opts"].get("slab"):
+                    history.append(prev)
+            res["history"] = history
+            done.append((case, res))
+            last = case
+            if "input_kind" in case["opts"]:
+                last_input = case
+    finally:
+        shutil.rmtree(workdir, ignore_errors=True)
     reqs = []
     for case, _res in done:
         reqs += model_requests(case)
@@ -739,6 +769,10 @@ def replay(ctx, data):
     if grids:
         run_grid(ctx, [(c["grid_kind"], [fractions.Fraction(x) for x in c["box"]], fractions.Fraction(c["spacing"]),
                         c.get("sub", "replay")) for c in grids])
-    run_cases(ctx, [c for c in cases if isinstance(c, dict) and "types" in c], timeout=60.0)
+    todo = []
+    for c in cases:
+        if isinstance(c, dict) and "types" in c:
+            todo += [h for h in c.get("history") or [] if isinstance(h, dict) and "types" in h] + [c]
+    run_cases(ctx, todo, timeout=60.0)
     for b in ctx.broken:
         print("REPLAY-DISAGREES", b["name"], b["detail"][:400])
